@@ -17,8 +17,8 @@ use serde_json::json;
 use std::collections::BTreeMap;
 
 #[derive(Clone, Copy, Debug, PartialEq)]
-pub enum Field { PointX, PointY, PointGap, CompOffsetX, CompOffsetY, CompScale, Advance, AdvanceHeight, Kern, AnchorX, AnchorY, Ascender, TypoDescender }
-const FIELDS: &[Field] = &[Field::PointX, Field::PointY, Field::PointGap, Field::CompOffsetX, Field::CompOffsetY, Field::CompScale, Field::Advance, Field::AdvanceHeight, Field::Kern, Field::AnchorX, Field::AnchorY, Field::Ascender, Field::TypoDescender];
+pub enum Field { PointX, PointY, PointGap, CompOffsetX, CompOffsetY, CompScale, NestedScale, MixedScale, Advance, AdvanceHeight, Kern, AnchorX, AnchorY, Ascender, TypoDescender }
+const FIELDS: &[Field] = &[Field::PointX, Field::PointY, Field::PointGap, Field::CompOffsetX, Field::CompOffsetY, Field::CompScale, Field::NestedScale, Field::MixedScale, Field::NestedScale, Field::MixedScale, Field::Advance, Field::AdvanceHeight, Field::Kern, Field::AnchorX, Field::AnchorY, Field::Ascender, Field::TypoDescender];
 const I16_VALUES: &[f64] = &[32766.0, 32767.0, 32768.0, 40000.0, 65535.0, 65536.0, 70000.0, -32767.0, -32768.0, -32769.0, -40000.0, -70000.0, 32767.4, 32767.5, -32768.5, 100000.0];
 const U16_VALUES: &[f64] = &[65534.0, 65535.0, 65536.0, 70000.0, 131072.0, 65535.4, 65535.5, -1.0, -600.0, 40000.0];
 const SCALES: &[f64] = &[1.5, 1.99993896484375, 2.0, 2.00006103515625, -2.0, -2.00006103515625, 2.5, -2.5, 3.0, 100.0];
@@ -28,7 +28,7 @@ fn representable(field: Field, v: f64) -> bool {
     let r = ot_round(v);
     match field {
         Field::Advance | Field::AdvanceHeight => (0.0..=65535.0).contains(&r),
-        Field::CompScale => true, // out-of-range scales have a shape-preserving fallback (decomposition)
+        Field::CompScale | Field::NestedScale | Field::MixedScale => true, // out-of-range scales have a shape-preserving fallback (decomposition)
         // both end points are in range; their difference is not a stored field in the glyf format's long
         // form... the flag/short-vector encoding stores differences in 16 bits
         Field::PointGap => r <= 32767.0,
@@ -40,7 +40,7 @@ fn square(x0: f64, y0: f64, w: f64) -> Contour {
     Contour { pts: vec![Pt { x: x0, y: y0, typ: PtType::Line }, Pt { x: x0 + w, y: y0, typ: PtType::Line }, Pt { x: x0 + w, y: y0 + w, typ: PtType::Line }, Pt { x: x0, y: y0 + w, typ: PtType::Line }] }
 }
 
-pub struct Case { pub font: SynthFont, pub edits: Vec<(Field, f64, usize)> }
+pub struct Case { pub font: SynthFont, pub edits: Vec<(Field, f64, usize)>, pub prefer_simple_off: bool }
 
 pub fn make_case(g: &mut Gen) -> Case {
     let variable = g.chance(1, 2);
@@ -56,31 +56,39 @@ pub fn make_case(g: &mut Gen) -> Case {
     }
     let mk = |name: &str, cp: u32, cat: &'static str| Glyph { name: name.into(), codepoints: if cp != 0 { vec![cp] } else { vec![] }, export: true, category: Some(cat), kind: OutlineKind::Line, sources: BTreeMap::new() };
     let (mut a, mut b, mut c, mut m) = (mk("A", 0x41, "base"), mk("B", 0x42, "base"), mk("C", 0x43, "base"), mk("acutecomb", 0x301, "mark"));
+    // a non-export part used through a second level of nesting, and a glyph with an outline and a component
+    let (mut part, mut gd, mut ge) = (mk("_part", 0, "base"), mk("D", 0x44, "base"), mk("E", 0x45, "base"));
+    part.export = false;
     for si in 0..n_src {
         let d = si as f64 * 10.0;
+        let d0 = d;
         let h = if vertical { Some(1000.0) } else { None };
         a.sources.insert(si, GlyphSource { advance: 600.0 + d, height: h, contours: vec![square(0.0, 0.0, 100.0 + d)], comps: vec![], anchors: vec![("top".into(), 50.0 + d, 700.0)] });
         b.sources.insert(si, GlyphSource { advance: 500.0, height: h, contours: vec![square(10.0, 10.0, 50.0)], comps: vec![], anchors: vec![] });
         c.sources.insert(si, GlyphSource { advance: 700.0, height: h, contours: vec![], comps: vec![Comp { base: "A".into(), xf: [1.0, 0.0, 0.0, 1.0, 20.0 + d, 30.0] }], anchors: vec![] });
         m.sources.insert(si, GlyphSource { advance: 0.0, height: h, contours: vec![square(-60.0, 600.0, 40.0)], comps: vec![], anchors: vec![("_top".into(), -40.0, 580.0)] });
+        part.sources.insert(si, GlyphSource { advance: 600.0, height: h, contours: vec![], comps: vec![Comp { base: "A".into(), xf: [1.0, 0.0, 0.0, 1.0, 10.0, 0.0] }], anchors: vec![] });
+        gd.sources.insert(si, GlyphSource { advance: 650.0, height: h, contours: vec![], comps: vec![Comp { base: "_part".into(), xf: [1.0, 0.0, 0.0, 1.0, 5.0 + d0, 7.0] }], anchors: vec![] });
+        ge.sources.insert(si, GlyphSource { advance: 650.0, height: h, contours: vec![square(300.0, 0.0, 40.0)], comps: vec![Comp { base: "A".into(), xf: [1.0, 0.0, 0.0, 1.0, 0.0, 0.0] }], anchors: vec![] });
         let mut k = Kerning::default(); k.pairs.insert(("A".into(), "B".into()), -50.0 - d);
         sources[si].kerning = Some(k);
     }
-    let mut font = SynthFont { upem: 1000, axes, sources, glyphs: vec![a, b, c, m], glyph_order: None, skip_export: vec![], ps_names: None, categories_explicit: true, features: None, instances: vec![], rules: vec![], rules_processing_last: false, lib_filters: vec![] };
+    let mut font = SynthFont { upem: 1000, axes, sources, glyphs: vec![a, b, c, m, part, gd, ge], glyph_order: None, skip_export: vec!["_part".into()], ps_names: None, categories_explicit: true, features: None, instances: vec![], rules: vec![], rules_processing_last: false, lib_filters: vec![] };
     let n_edits = 1 + g.weighted(&[4, 1]);
     let mut edits: Vec<(Field, f64, usize)> = vec![];
     for _ in 0..n_edits {
         let field = *g.pick(FIELDS);
         let si = if variable && g.chance(1, 3) { 1 } else { 0 };
-        let v = match field { Field::Advance | Field::AdvanceHeight => *g.pick(U16_VALUES), Field::CompScale => *g.pick(SCALES), Field::PointGap => *g.pick(GAPS), _ => *g.pick(I16_VALUES) };
+        let v = match field { Field::Advance | Field::AdvanceHeight => *g.pick(U16_VALUES), Field::CompScale | Field::MixedScale => *g.pick(SCALES), Field::NestedScale => *g.pick(&[1.5, -1.5, 1.25, 2.0, 1.75, -2.0]), Field::PointGap => *g.pick(GAPS), _ => *g.pick(I16_VALUES) };
         if field == Field::AdvanceHeight && !vertical { continue; }
         if edits.iter().any(|(f, _, _)| *f == field) { continue; }
         // the component scale must be the same in every master (a varying 2x2 is decomposed for another reason)
-        let targets: Vec<usize> = if field == Field::CompScale { (0..n_src).collect() } else { vec![si] };
+        let targets: Vec<usize> = if matches!(field, Field::CompScale | Field::NestedScale | Field::MixedScale) { (0..n_src).collect() } else { vec![si] };
         for t in targets { apply(&mut font, field, v, t); }
         edits.push((field, v, si));
     }
-    Case { font, edits }
+    let prefer_simple_off = g.chance(1, 3);
+    Case { font, edits, prefer_simple_off }
 }
 
 fn apply(f: &mut SynthFont, field: Field, v: f64, si: usize) {
@@ -91,6 +99,9 @@ fn apply(f: &mut SynthFont, field: Field, v: f64, si: usize) {
         Field::PointGap => { let i = gl(f, "B"); let c = &mut f.glyphs[i].sources.get_mut(&si).unwrap().contours[0]; let lo = -(v / 2.0).floor(); c.pts[0].x = lo; c.pts[3].x = lo; c.pts[1].x = lo + v; c.pts[2].x = lo + v; }
         Field::CompOffsetX => { let i = gl(f, "C"); f.glyphs[i].sources.get_mut(&si).unwrap().comps[0].xf[4] = v; }
         Field::CompOffsetY => { let i = gl(f, "C"); f.glyphs[i].sources.get_mut(&si).unwrap().comps[0].xf[5] = v; }
+        // each factor fits the 2.14 range; their product may not (1.5 x 1.5 = 2.25)
+        Field::NestedScale => { let i = gl(f, "_part"); let x = &mut f.glyphs[i].sources.get_mut(&si).unwrap().comps[0].xf; x[0] = v; x[3] = v.abs(); let j = gl(f, "D"); let y = &mut f.glyphs[j].sources.get_mut(&si).unwrap().comps[0].xf; y[0] = v.abs(); y[3] = 1.5; }
+        Field::MixedScale => { let i = gl(f, "E"); let x = &mut f.glyphs[i].sources.get_mut(&si).unwrap().comps[0].xf; x[0] = v; x[3] = v.abs().min(1.5); }
         Field::CompScale => { let i = gl(f, "C"); let x = &mut f.glyphs[i].sources.get_mut(&si).unwrap().comps[0].xf; x[0] = v; x[3] = v.abs().min(1.5); }
         Field::Advance => { let i = gl(f, "A"); f.glyphs[i].sources.get_mut(&si).unwrap().advance = v; }
         Field::AdvanceHeight => { let i = gl(f, "A"); f.glyphs[i].sources.get_mut(&si).unwrap().height = Some(v); }
@@ -100,6 +111,31 @@ fn apply(f: &mut SynthFont, field: Field, v: f64, si: usize) {
         Field::Ascender => { f.sources[si].info.ascender = Some(v); }
         Field::TypoDescender => { f.sources[si].info.metrics.insert("openTypeOS2TypoDescender", v); }
     }
+}
+
+/// the value the source gives `field` in source `si` (the edited fields only)
+fn model_value(f: &SynthFont, field: Field, si: usize) -> f64 {
+    let g = |n: &str| f.glyph(n).unwrap().sources.get(&si).unwrap().clone();
+    match field {
+        Field::PointX => g("A").contours[0].pts[2].x, Field::PointY => g("A").contours[0].pts[2].y, Field::PointGap => g("B").contours[0].pts[1].x - g("B").contours[0].pts[0].x,
+        Field::CompOffsetX => g("C").comps[0].xf[4], Field::CompOffsetY => g("C").comps[0].xf[5], Field::CompScale => g("C").comps[0].xf[0], Field::NestedScale => g("_part").comps[0].xf[0], Field::MixedScale => g("E").comps[0].xf[0],
+        Field::Advance => g("A").advance, Field::AdvanceHeight => g("A").height.unwrap_or(0.0), Field::Kern => f.sources[si].kerning.as_ref().and_then(|k| k.pairs.get(&("A".to_string(), "B".to_string())).copied()).unwrap_or(0.0),
+        Field::AnchorX => g("A").anchors[0].1, Field::AnchorY => g("A").anchors[0].2, Field::Ascender => f.sources[si].info.ascender.unwrap_or(0.0), Field::TypoDescender => f.sources[si].info.metrics.get("openTypeOS2TypoDescender").copied().unwrap_or(0.0),
+    }
+}
+
+/// how a wrong value relates to the right one: the signature names the mechanism, so that the recorded
+/// saturation findings do not hide a value that went wrong in another way
+fn how(f: &SynthFont, field: Field, v: f64, si: usize, got: f64) -> &'static str {
+    let want = ot_round(v);
+    let (lo, hi) = if matches!(field, Field::Advance | Field::AdvanceHeight) { (0.0, 65535.0) } else { (-32768.0, 32767.0) };
+    if want.clamp(lo, hi) != want && (got - want.clamp(lo, hi)).abs() <= 1.0 { return "saturated"; }
+    if si > 0 {
+        let d0 = ot_round(model_value(f, field, 0));
+        let delta = want - d0;
+        if delta.clamp(-32768.0, 32767.0) != delta && (got - (d0 + delta.clamp(-32768.0, 32767.0))).abs() <= 1.0 { return "master-delta-saturated"; }
+    }
+    "not-carried"
 }
 
 /// with a font in hand: does it carry the value the source states?
@@ -114,31 +150,44 @@ fn check_value(rep: &mut CaseReport, f: &SynthFont, bytes: &[u8], field: Field, 
     let outline = |n: &str| -> Option<Vec<Vec<(f64, f64, bool)>>> { font.resolved_outline(gid(n)?, Some(&coords), 0).ok() };
     let has_pt = |o: &Option<Vec<Vec<(f64, f64, bool)>>>, x: Option<f64>, y: Option<f64>| o.as_ref().map(|o| o.iter().flatten().any(|p| x.map_or(true, |x| (p.0 - x).abs() <= tol) && y.map_or(true, |y| (p.1 - y).abs() <= tol))).unwrap_or(false);
     match field {
-        Field::PointX => { let o = outline("A"); if !has_pt(&o, Some(want), None) { rep.fail("glyf-coordinate-not-carried", format!("{label}: no point of A has x = {want}; outline {o:?}")); } }
-        Field::PointY => { let o = outline("A"); if !has_pt(&o, None, Some(want)) { rep.fail("glyf-coordinate-not-carried", format!("{label}: no point of A has y = {want}; outline {o:?}")); } }
-        Field::PointGap => { let o = outline("B"); let lo = -(v / 2.0).floor(); if !(has_pt(&o, Some(lo), None) && has_pt(&o, Some(lo + v), None)) { rep.fail("glyf-point-difference-not-carried", format!("{label}: B should span x = {lo} .. {}; outline {o:?}", lo + v)); } }
-        Field::CompOffsetX | Field::CompOffsetY | Field::CompScale => {
-            let o = outline("C");
-            let exp = f.resolved("C", si, &IDENT, 0).unwrap_or_default();
-            let ok = exp.iter().flatten().all(|p| has_pt(&o, Some(ot_round(p.x)), Some(ot_round(p.y)))) || exp.iter().flatten().all(|p| has_pt(&o, Some(p.x.round()), Some(p.y.round())));
-            if !ok { rep.fail(if field == Field::CompScale { "component-scale-not-carried" } else { "component-offset-not-carried" }, format!("{label}: resolved C {o:?} vs source {:?}", exp.iter().flatten().map(|p| (p.x, p.y)).collect::<Vec<_>>())); }
+        Field::PointX | Field::PointY => {
+            let o = outline("A");
+            let isx = field == Field::PointX;
+            if !(if isx { has_pt(&o, Some(want), None) } else { has_pt(&o, None, Some(want)) }) {
+                // the edited point is the extreme one in that direction
+                let got = o.as_ref().map(|o| o.iter().flatten().map(|p| if isx { p.0 } else { p.1 }).fold(if want < 0.0 { f64::MAX } else { f64::MIN }, |m, x| if want < 0.0 { m.min(x) } else { m.max(x) })).unwrap_or(f64::NAN);
+                rep.fail(format!("glyf-coordinate-{}", how(f, field, v, si, got)), format!("{label}: no point of A has {} = {want}; outline {o:?}", if isx { "x" } else { "y" }));
+            }
         }
-        Field::Advance => { if let Some(g) = gid("A") { let got = font.advance(g).map(|a| a.0 as f64).unwrap_or(f64::NAN) + font.hvar_advance_delta(g, &coords).ok().flatten().unwrap_or(0.0); if !((got - want).abs() <= tol) { rep.fail("advance-width-not-carried", format!("{label}: hmtx(+HVAR) says {got}")); } } }
-        Field::AdvanceHeight => { if let Some(g) = gid("A") { match font.v_advance(g) { Some(a) => { let got = a.0 as f64 + font.vvar_advance_delta(g, &coords).ok().flatten().unwrap_or(0.0); if !((got - want).abs() <= tol) { rep.fail("advance-height-not-carried", format!("{label}: vmtx(+VVAR) says {got}")); } } None => rep.fail("advance-height-not-carried", format!("{label}: no vmtx")) } } }
+        Field::PointGap => { let o = outline("B"); let lo = -(v / 2.0).floor(); if !(has_pt(&o, Some(lo), None) && has_pt(&o, Some(lo + v), None)) { rep.fail("glyf-point-difference-not-carried", format!("{label}: B should span x = {lo} .. {}; outline {o:?}", lo + v)); } }
+        Field::CompOffsetX | Field::CompOffsetY | Field::CompScale | Field::NestedScale | Field::MixedScale => {
+            let gname = match field { Field::NestedScale => "D", Field::MixedScale => "E", _ => "C" };
+            let o = outline(gname);
+            let exp = f.resolved(gname, si, &IDENT, 0).unwrap_or_default();
+            let ok = exp.iter().flatten().all(|p| has_pt(&o, Some(ot_round(p.x)), Some(ot_round(p.y)))) || exp.iter().flatten().all(|p| has_pt(&o, Some(p.x.round()), Some(p.y.round())));
+            // a component scale is stored as F2Dot14: 2.0 itself becomes 2 - 2^-14, which moves a point by |coordinate| x 2^-14
+            let is_scale = matches!(field, Field::CompScale | Field::NestedScale | Field::MixedScale);
+            let ok = ok || (is_scale && exp.iter().flatten().all(|p| o.as_ref().map(|o| o.iter().flatten().any(|q| (q.0 - p.x).abs() <= 0.5 + p.x.abs() / 8192.0 && (q.1 - p.y).abs() <= 0.5 + p.y.abs() / 8192.0)).unwrap_or(false)));
+            let mech = if is_scale { "not-carried" } else { let got0 = o.as_ref().and_then(|o| o.iter().flatten().map(|q| if field == Field::CompOffsetX { q.0 } else { q.1 }).fold(None, |m: Option<f64>, x| Some(m.map_or(x, |m| if v < 0.0 { m.min(x) } else { m.min(x) })))).unwrap_or(f64::NAN); how(f, field, v, si, got0) };
+            if !ok { rep.fail(if is_scale { "component-scale-not-carried".to_string() } else { format!("component-offset-{mech}") }, format!("{label}: resolved {gname} {o:?} vs source {:?}", exp.iter().flatten().map(|p| (p.x, p.y)).collect::<Vec<_>>())); }
+        }
+        Field::Advance => { if let Some(g) = gid("A") { let got = font.advance(g).map(|a| a.0 as f64).unwrap_or(f64::NAN) + font.hvar_advance_delta(g, &coords).ok().flatten().unwrap_or(0.0); if !((got - want).abs() <= tol) { rep.fail(format!("advance-width-{}", how(f, field, v, si, got)), format!("{label}: hmtx(+HVAR) says {got}")); } } }
+        Field::AdvanceHeight => { if let Some(g) = gid("A") { match font.v_advance(g) { Some(a) => { let got = a.0 as f64 + font.vvar_advance_delta(g, &coords).ok().flatten().unwrap_or(0.0); if !((got - want).abs() <= tol) { rep.fail(format!("advance-height-{}", how(f, field, v, si, got)), format!("{label}: vmtx(+VVAR) says {got}")); } } None => rep.fail("advance-height-not-carried", format!("{label}: no vmtx")) } } }
         Field::Kern => {
             let Ok(l) = Layout::new(&font) else { rep.fail("layout-tables-unreadable", ""); return; };
             let lookups = l.lookups_for(Tbl::Gpos, "latn", "dflt", &coords, Some(&["kern"])).unwrap_or_default();
             let got = match (gid("A"), gid("B")) { (Some(a), Some(b)) if font.has(b"GPOS") => l.gpos_apply(&lookups, &[a, b], &coords).map(|p| p[0].x_adv).unwrap_or(f64::NAN), _ => 0.0 };
-            if !((got - want).abs() <= tol) { rep.fail("kerning-value-not-carried", format!("{label}: kern feature applies {got}")); }
+            if !((got - want).abs() <= tol) { rep.fail(format!("kerning-value-{}", how(f, field, v, si, got)), format!("{label}: kern feature applies {got}")); }
         }
         Field::AnchorX | Field::AnchorY => {
             let Ok(l) = Layout::new(&font) else { rep.fail("layout-tables-unreadable", ""); return; };
-            let lookups = l.lookups_for(Tbl::Gpos, "latn", "dflt", &coords, Some(&["mark"])).unwrap_or_default();
+            // generated mark features are registered for DFLT (and whatever language systems the feature file declares; it declares none here)
+            let lookups = l.lookups_for(Tbl::Gpos, "DFLT", "dflt", &coords, Some(&["mark"])).unwrap_or_default();
             let atts = match (gid("A"), gid("acutecomb")) { (Some(a), Some(m)) if font.has(b"GPOS") => l.mark_attachments(&lookups, 4, a, m, 0, &coords).unwrap_or_default(), _ => vec![] };
-            match atts.last() { None => rep.fail("anchor-not-carried", format!("{label}: no mark attachment for A + acutecomb")), Some(att) => { let got = if field == Field::AnchorX { att.base.0 } else { att.base.1 }; if !((got - want).abs() <= tol) { rep.fail("anchor-coordinate-not-carried", format!("{label}: base anchor says {got}")); } } }
+            match atts.last() { None => rep.fail("anchor-dropped", format!("{label}: no mark attachment for A + acutecomb; mark lookups {lookups:?}; GPOS features {:?}; GDEF classes {:?}", l.features(Tbl::Gpos, "DFLT", "dflt", &coords).unwrap_or_default(), l.glyph_class)), Some(att) => { let got = if field == Field::AnchorX { att.base.0 } else { att.base.1 }; if !((got - want).abs() <= tol) { rep.fail(format!("anchor-coordinate-{}", how(f, field, v, si, got)), format!("{label}: base anchor says {got}")); } } }
         }
-        Field::Ascender => { let got = font.f.hhea().map(|h| h.ascender().to_i16() as f64).unwrap_or(f64::NAN) + font.mvar_delta(b"hasc", &coords).ok().flatten().unwrap_or(0.0); let os2 = font.f.os2().map(|o| o.s_typo_ascender() as f64).unwrap_or(f64::NAN) + font.mvar_delta(b"hasc", &coords).ok().flatten().unwrap_or(0.0); if !((os2 - want).abs() <= tol) && !((got - want).abs() <= tol) { rep.fail("global-metric-not-carried", format!("{label}: OS/2 typo ascender {os2}, hhea ascender {got}")); } }
-        Field::TypoDescender => { let got = font.f.os2().map(|o| o.s_typo_descender() as f64).unwrap_or(f64::NAN) + font.mvar_delta(b"hdsc", &coords).ok().flatten().unwrap_or(0.0); if !((got - want).abs() <= tol) { rep.fail("global-metric-not-carried", format!("{label}: OS/2 typo descender {got}")); } }
+        Field::Ascender => { let got = font.f.hhea().map(|h| h.ascender().to_i16() as f64).unwrap_or(f64::NAN) + font.mvar_delta(b"hasc", &coords).ok().flatten().unwrap_or(0.0); let os2 = font.f.os2().map(|o| o.s_typo_ascender() as f64).unwrap_or(f64::NAN) + font.mvar_delta(b"hasc", &coords).ok().flatten().unwrap_or(0.0); if !((os2 - want).abs() <= tol) && !((got - want).abs() <= tol) { rep.fail(format!("global-metric-{}", how(f, field, v, si, os2)), format!("{label}: OS/2 typo ascender {os2}, hhea ascender {got}")); } }
+        Field::TypoDescender => { let got = font.f.os2().map(|o| o.s_typo_descender() as f64).unwrap_or(f64::NAN) + font.mvar_delta(b"hdsc", &coords).ok().flatten().unwrap_or(0.0); if !((got - want).abs() <= tol) { rep.fail(format!("global-metric-{}", how(f, field, v, si, got)), format!("{label}: OS/2 typo descender {got}")); } }
     }
 }
 
@@ -147,8 +196,9 @@ pub fn check(ctx: &Ctx, genome: &[u16]) -> CaseReport {
     let mut g = Gen::new(genome);
     let case = make_case(&mut g);
     let f = &case.font;
-    rep.key = fnv_str(&format!("{:?}{}", case.edits, f.is_variable()));
-    rep.sample = Some(json!({"variable": f.is_variable(), "edits": case.edits.iter().map(|(fi, v, si)| json!({"field": format!("{fi:?}"), "value": v, "source": si, "representable": representable(*fi, *v)})).collect::<Vec<_>>()}));
+    rep.key = fnv_str(&format!("{:?}{}{}", case.edits, f.is_variable(), case.prefer_simple_off));
+    if case.prefer_simple_off { rep.class("prefer-simple-glyphs-off"); }
+    rep.sample = Some(json!({"variable": f.is_variable(), "prefer_simple_glyphs_off": case.prefer_simple_off, "edits": case.edits.iter().map(|(fi, v, si)| json!({"field": format!("{fi:?}"), "value": v, "source": si, "representable": representable(*fi, *v)})).collect::<Vec<_>>()}));
     let files = ufo::render(f);
     if ctx.dry || case.edits.is_empty() { for (k, v) in files { rep.artifacts.push((k, v.into_bytes())); } rep.discard = case.edits.is_empty(); return rep; }
     rep.nontrivial = case.edits.iter().any(|(fi, v, _)| !representable(*fi, *v));
@@ -158,7 +208,8 @@ pub fn check(ctx: &Ctx, genome: &[u16]) -> CaseReport {
     let mut outcomes = vec![];
     for release in [false, true] {
         let w = scratch.path().join(if release { "rel" } else { "dev" }); let _ = std::fs::create_dir_all(&w);
-        outcomes.push(run_fontc(&fontc_bin(release), &ds, &w, &[], 120));
+        let extra: &[&str] = if case.prefer_simple_off { &["--prefer-simple-glyphs", "false"] } else { &[] };
+        outcomes.push(run_fontc(&fontc_bin(release), &ds, &w, extra, 120));
     }
     let attach = |rep: &mut CaseReport| { if rep.artifacts.is_empty() { for (k, v) in &files { rep.artifacts.push((k.clone(), v.clone().into_bytes())); } } };
     let tag = case.edits.iter().map(|(fi, _, _)| format!("{fi:?}")).collect::<Vec<_>>().join("+");
@@ -166,27 +217,25 @@ pub fn check(ctx: &Ctx, genome: &[u16]) -> CaseReport {
         (Outcome::Violation(s, d), _) | (_, Outcome::Violation(s, d)) => { rep.fail(format!("process-contract:{s}"), format!("{tag}: {d}")); }
         (Outcome::Built(a), Outcome::Built(b)) => {
             rep.class("built");
-            if a != b { rep.fail(format!("profiles-disagree-on-bytes:{tag}"), "debug and release builds both succeed but emit different fonts".to_string()); }
+            if a != b { rep.fail("profiles-disagree-on-bytes", "debug and release builds both succeed but emit different fonts".to_string()); }
             for (fi, v, si) in &case.edits { rep.evals += 1; check_value(&mut rep, f, b, *fi, *v, *si); }
         }
         (Outcome::Reported(_), Outcome::Reported(_)) => {
             rep.class("rejected");
             if case.edits.iter().all(|(fi, v, _)| representable(*fi, *v)) { rep.class("in-range-value-rejected"); }
         }
-        (Outcome::Built(_), Outcome::Reported(m)) => { rep.fail(format!("profiles-disagree:debug-builds-release-rejects:{tag}"), m.clone()); }
+        (Outcome::Built(_), Outcome::Reported(m)) => { rep.fail("profiles-disagree:debug-builds-release-rejects", format!("{tag}: {m}")); }
         (Outcome::Reported(m), Outcome::Built(b)) => {
-            rep.fail(format!("profiles-disagree:debug-rejects-release-builds:{tag}"), format!("debug build: {m}"));
+            rep.fail("profiles-disagree:debug-rejects-release-builds", format!("{tag}: debug build: {m}"));
             for (fi, v, si) in &case.edits { check_value(&mut rep, f, b, *fi, *v, *si); }
         }
     }
-    // signatures name the field class, not the value
-    for fl in rep.failures.iter_mut() { if !fl.signature.contains(':') { fl.signature = format!("{}:{tag}", fl.signature); } }
     if !rep.failures.is_empty() { attach(&mut rep); }
     rep
 }
 
 pub fn parts() -> Vec<Part> {
-    vec![Part { name: "boundaries", genome_len: 40, cases_quick: 500, cases_thorough: 8000, threads: 14, max_shrink_iters: 60, check: Box::new(check), remote: None }]
+    vec![Part { name: "boundaries", genome_len: 40, cases_quick: 1200, cases_thorough: 20000, threads: 14, max_shrink_iters: 60, check: Box::new(check), remote: None }]
 }
-pub const RULE: &str = "a small static or two-master source (simple glyphs, a composite, a mark with anchors, one kerning pair, optional vertical metrics) with one or two numeric fields set to a boundary value: outline x / y, the difference between two consecutive in-range points, component offset x / y, component scale, advance width / height, kerning value, anchor x / y, ascender, typo descender; values at limit-1, limit, limit+1, half-unit neighbours, 2 x limit and their negatives; in the default or the other master. Both fontc binaries (dev profile: overflow checks on; release: off) run as processes: outcomes must agree (both reject with a diagnostic, or both build byte-identical fonts) and a built font must carry every edited value unchanged (own readers: resolved outline, hmtx/vmtx + HVAR/VVAR, kern feature, mark anchors, OS/2 / hhea + MVAR) or, for component scales, draw the same shape. non-trivial = at least one edited field is outside its representable range";
+pub const RULE: &str = "a small static or two-master source (simple glyphs, a composite, a mark with anchors, one kerning pair, optional vertical metrics) with one or two numeric fields set to a boundary value: outline x / y, the difference between two consecutive in-range points, component offset x / y, component scale (direct, through a nested non-export part whose factors each fit but whose product does not, and in a glyph that also has an outline, with prefer-simple-glyphs on or off), advance width / height, kerning value, anchor x / y, ascender, typo descender; values at limit-1, limit, limit+1, half-unit neighbours, 2 x limit and their negatives; in the default or the other master. Both fontc binaries (dev profile: overflow checks on; release: off) run as processes: outcomes must agree (both reject with a diagnostic, or both build byte-identical fonts) and a built font must carry every edited value unchanged (own readers: resolved outline, hmtx/vmtx + HVAR/VVAR, kern feature, mark anchors, OS/2 / hhea + MVAR) or, for component scales, draw the same shape. non-trivial = at least one edited field is outside its representable range";
 pub const ASSUMPTIONS: &[&str] = &["values in a non-default master are compared at that master's location with 1 unit of tolerance (delta rounding); default-master values exactly", "a successive-point difference beyond 16 bits with both end points in range counts as not representable (the statement lists it)", "a main-thread panic is reported by fontc as an error since the C15 repair; a panic in one profile and a font in the other is a disagreement"];
